@@ -2,6 +2,7 @@
 // deterministic thread simulator. Real library code; harness tasks are the
 // "clients". All harness bookkeeping goes through simv_* (uninstrumented side).
 #include "SimTKcommon.h"
+#include "SimTKmath.h"
 #include "../common/common.h"
 #include "simv.h"
 #include "tharness.h"
@@ -40,6 +41,23 @@ struct QTask : ParallelWorkQueue::Task {
     ~QTask() override { simv_log(EV_TDTOR, id, 0, 0); }
     void execute() override { simv_log(EV_XB, id, 0, 0); yields(ny); simv_log(EV_XE, id, 0, 0); }
 };
+
+// A real client of ParallelExecutor inside the library: CMA-ES evaluating its population on worker threads.
+static bool g_inSim = false;
+class CmaSys : public OptimizerSystem {
+public:
+    CmaSys(int n, uint64_t seed, int ny) : OptimizerSystem(n), c(n), ny(ny) { vf::Rng r(seed); for (int i = 0; i < n; ++i) c[i] = r.uni(-1, 1); }
+    int objectiveFunc(const Vector& x, bool, Real& f) const override { if (g_inSim) yields(ny); f = 0; for (int i = 0; i < x.size(); ++i) f += (1 + i) * square(x[i] - c[i]); if (g_inSim) simv_log(EV_XB, 0, 0, 99); return 0; }
+    Vector c; int ny;
+};
+static uint64_t runCma(const Plan& p, int threads) {
+    int n = (int)std::max(2L, std::min(4L, p.cfgn("dim", 2))); uint64_t sd = (uint64_t)p.cfgn("cma_seed", 7);
+    CmaSys sys(n, sd, (int)p.cfgn("yield", 1)); Optimizer opt(sys, CMAES);
+    opt.setMaxIterations((int)std::max(1L, std::min(12L, p.cfgn("iters", 4)))); opt.setAdvancedIntOption("popsize", (int)std::max(2L, std::min(12L, p.cfgn("popsize", 6))));
+    opt.setAdvancedIntOption("seed", (int)(sd % 1000) + 1); opt.setAdvancedRealOption("init_stepsize", 0.4); opt.setAdvancedRealOption("maxTimeFractionForEigendecomposition", 1.0);
+    if (threads > 0) { opt.setAdvancedStrOption("parallel", "multithreading"); opt.setAdvancedIntOption("nthreads", threads); }
+    Vector x(n, 0.25); Real f = opt.optimize(x); vf::Hash h; h.mixd(f); for (int i = 0; i < n; ++i) h.mixd(x[i]); return h.h;
+}
 
 struct Ev { long seq; int tid, kind, a, b, c; };
 
@@ -92,6 +110,11 @@ struct C33 : vf::Engine {
             int nops = r.range(1, 3);
             for (int k = 0; k < nops; ++k)
                 p.ops.push_back(vf::mkop("exec2d").set("range", (int)r.below(3)).set("ymod", g > 40 ? r.range(7, 40) : r.range(1, 5)));
+        } else if (w >= 94) {
+            p.setcfg("workload", "CMA");
+            p.setcfg("threads", r.range(1, 4)); p.setcfg("nproc", r.range(1, 8)); p.setcfg("dim", r.range(2, 4)); p.setcfg("popsize", r.range(3, 8)); p.setcfg("iters", r.range(1, 5));
+            p.setcfg("cma_seed", (uint64_t)(r.next() >> 40)); p.setcfg("yield", (int)r.below(3));
+            p.ops.push_back(vf::mkop("optimize"));
         } else {
             p.setcfg("workload", "PWQ");
             p.setcfg("qsize", r.chance(0.5) ? r.range(1, 3) : r.smallBiased(1, 64));
@@ -109,6 +132,7 @@ struct C33 : vf::Engine {
         for (auto& op : p.ops) work += op.num("count", 0) * (1 + op.num("yield", 0)) + op.num("n", 0) * (3 + op.num("yield", 0));
         long g = p.cfgn("grid", 0);
         work += (long)p.ops.size() * g * g;
+        if (p.cfg("workload") == "CMA") work += 40 * p.cfgn("popsize", 6) * p.cfgn("iters", 4) * (1 + p.cfgn("yield", 1));
         p.setcfg("step_budget", 4000 + 60 * work + 400 * (p.cfgn("threads", 1) + p.cfgn("nproc", 1)) * (long)(p.ops.size() + 1));
         return p;
     }
@@ -123,6 +147,8 @@ struct C33 : vf::Engine {
     Result execute(const Plan& p) override {
         Result res;
         std::string w = p.cfg("workload", "PE");
+        uint64_t cmaSerial = 0, cmaParallel = 0;
+        if (w == "CMA") { try { cmaSerial = runCma(p, 0); } catch (const std::exception& e) { res.inconclusive = true; res.detail = std::string("serial CMA-ES failed: ") + e.what(); return res; } }
         th::begin(p);
         std::vector<int> counts; // per op: expected count (PE), range (P2D)
         int nadded = 0;
@@ -141,6 +167,8 @@ struct C33 : vf::Engine {
                     ++k;
                 }
                 simv_log(EV_DTORB, 0, 0, 0); ex.reset(); simv_log(EV_DTORE, 0, 0, 0);
+            } else if (w == "CMA") {
+                g_inSim = true; cmaParallel = runCma(p, std::max(1, (int)p.cfgn("threads", 2))); g_inSim = false;
             } else if (w == "P2D") {
                 int g = (int)p.cfgn("grid", 4), n = std::max(1, (int)p.cfgn("threads", 2));
                 std::unique_ptr<ParallelExecutor> ext;
@@ -175,10 +203,13 @@ struct C33 : vf::Engine {
         } catch (const std::exception& e) {
             res.fail("exception", "exception", e.what());
         }
+        g_inSim = false;
         th::end(p, res);
         collect();
         if (!res.violation) {
-            if (w == "PE") checkPE(p, res); else if (w == "P2D") checkP2D(p, res); else checkPWQ(p, res, nadded);
+            if (w == "PE") checkPE(p, res); else if (w == "P2D") checkP2D(p, res);
+            else if (w == "CMA") { res.count("probe_cmaes_population_on_executor"); if (cmaParallel != cmaSerial) res.fail("cmaes-parallel-differs", "CMA", "CMA-ES with a fixed seed returned a different optimum when its population was evaluated on " + S(p.cfgn("threads", 2)) + " simulated threads than serially"); }
+            else checkPWQ(p, res, nadded);
         }
         res.count("events", (long)ev.size());
         return res;
